@@ -58,7 +58,7 @@ impl Prop for C18 {
                 t += 1;
             }
             let pat = rng
-                .pick(&["[\"\\\\]+", "\\u{22}[^\\u{22}]*\\u{22}", "[\\n\\t ]", "[a-c&&[^b]]", "[\\[\\]]", "\u{e9}[\u{20ac}-\u{20af}]", "[[a-c][x-z]]", "\\\\\"", "[\\\\n]"])
+                .pick(&["[\"\\\\]+", "\\u{22}[^\\u{22}]*\\u{22}", "[\\n\\t ]", "[a-c&&[^b]]", "[\\[\\]]", "\u{e9}[\u{20ac}-\u{20af}]", "[[a-c][x-z]]", "\\\\\"", "[\\\\n]", "[\\\\\"]", "[^\\\"]+", "\\\"", "[\"\\\\]x"])
                 .to_string();
             gw.world.configs[0][0].patterns.push(PatternSpec { pattern: pat, token_type: t, lookahead: None });
         }
